@@ -26,9 +26,9 @@ DensRatio(x1, x2) == RDiv(x2, x1)
 \* sigma_K on the lattice: p3 = (P/P0)^(-1/3) in {2, 1, 1/2}, r = sqrt(1 - e^2) in {1, 4/5, 3/5}
 SigmaK(sK0, p3, r, maxK) == RMin(RDiv(RMul(sK0, p3), r), maxK)
 
-KippingGlobal == <<<<867, 1000>>, <<303, 100>>>>
-KippingShort == <<<<697, 1000>>, <<327, 100>>>>
-KippingLong == <<<<112, 100>>, <<309, 100>>>>
+KippingGlobal == <<Norm(867, 1000), Norm(303, 100)>>
+KippingShort == <<Norm(697, 1000), Norm(327, 100)>>
+KippingLong == <<Norm(112, 100), Norm(309, 100)>>
 
 Nonlinear == {"P", "e", "omega", "M0", "s"}
 VN == <<"v0", "v1", "v2">>
